@@ -17,7 +17,7 @@ def run(tier):
     if tier == "thorough":
         configs.append(cdb.Config("host-ndebug", extra=["-DNDEBUG"]))
     for cfg in configs:
-        prog = ir.Program([H.UNIT], cfg)
+        prog = ir.Program([H.UNIT, "netbuf/netbuf_write.c"], cfg)
         rep.add_stats(prog)
         L = H.lin_rule(prog, rep)
         nraw = H.strsafe(prog, rep)
@@ -26,6 +26,8 @@ def run(tier):
         H.budget(prog, rep, L)
         H.status_gate(prog, rep, L)
         H.freenull(prog, rep)
+        from . import c07
+        c07.orphan_rule(prog, rep)     # "leaks nothing": the request's writer must not orphan a queued buffer
     n = len(configs)
     rep.require_min("LIN", 11 * n)
     rep.require_min("B1-store", 2 * n)
